@@ -21,11 +21,11 @@ CHECKS = {
     ),
     'C13': dict(
         level='fault_enumeration',
-        batches=[dict(scenario='c13oom', flavour='P', quick=16 * 64 * 4, thorough=16 * 64 * 40),
-                 dict(scenario='c13oom', flavour='A', quick=16 * 64 * 2, thorough=16 * 64 * 12)],
-        rule='run = (API scenario S of 16, fault index k): gen counts allocs(S) fault-free under the run\'s schedule, then allocation 1+(j mod n) fails; 16*64 consecutive runs sweep every k (scenarios have at most 64 allocations; allocs_sum/runs in probes gives the mean) of every scenario for one variant; distinct = distinct plan signature (S, variant, k); non-trivial = the injected failure actually fired',
+        batches=[dict(scenario='c13oom', flavour='P', quick=17 * 64 * 4, thorough=17 * 64 * 40),
+                 dict(scenario='c13oom', flavour='A', quick=17 * 64 * 2, thorough=17 * 64 * 12)],
+        rule='run = (API scenario S of 17, fault index k): gen counts allocs(S) fault-free under the run\'s schedule, then allocation 1+(j mod n) fails; 17*64 consecutive runs sweep every k (scenarios have at most 64 allocations; allocs_sum/runs in probes gives the mean) of every scenario for one variant; distinct = distinct plan signature (S, variant, k); non-trivial = the injected failure actually fired',
         real=REAL_COMMON + ['lib/dictBuilder trainers via libc seam'], stub=STUB_COMMON + ['libc malloc/calloc/realloc/free via -Wl,--wrap (armed only inside the call under test)'],
-        assumptions=['one (thorough: sometimes two) failing allocation per run', 'allocation sequence deterministic given the schedule seed (simsched)', 'catalogue of 16 API scenarios; not every API entry point'],
+        assumptions=['one (thorough: sometimes two) failing allocation per run', 'allocation sequence deterministic given the schedule seed (simsched)', 'catalogue of 17 API scenarios; not every API entry point'],
     ),
     'C11': dict(
         level='exploration',
